@@ -170,6 +170,10 @@ def globmatch_vs_glob(item):
                         m.add(specwalk.norm_result(c))
                         if not os.path.lexists(os.path.join(t.root, c)):
                             out.append(dict(tree=tname, pattern=txt, flags=flags, fl=LC.flagnames(flags), exclude=excl, kind='nonexistent-matches', witness=c))
+                # the filter API answers like the match API (same matcher, same symlink rule)
+                flt = {specwalk.norm_result(c) for c in with_alarm(lambda: G.globfilter(sorted(cands), txt, **kw2))}
+                if flt != m:
+                    out.append(dict(tree=tname, pattern=txt, flags=flags, fl=LC.flagnames(flags), exclude=excl, kind='globfilter-differs-from-globmatch', witness=sorted(flt ^ m)[0]))
                 for c in sorted(ents)[:6]:
                     ac = os.path.join(t.root, c)
                     if not txt.startswith('/') and G.globmatch(ac, txt, **kw2):
